@@ -5,6 +5,8 @@ CONSTANTS
   VarLong = 4
   Padding = TRUE
   RelFpuOK = TRUE
+  Pages = {}
+  PageReset = TRUE
   SelfKinds = {"labs", "lvar", "lrel"}
   Labels = {"la", "lb", "lc"}
   MaxItems = 12
